@@ -27,10 +27,11 @@ Int32Byte(v, k) == IF v >= 0 THEN ByteOfNat(v, k) ELSE 255 - ByteOfNat(0 - (v + 
 
 \* Helpers that exist in BOTH layers carry the same id; Layer(h) says where a helper exists.
 Both == {"timed_pause", "xy_move", "abs_move", "motors_disable", "motors_enable_both", "pen_lower", "pen_raise",
-         "pb_config_out", "pb_set", "pen_pos_down", "pen_pos_up", "pen_rate_down", "pen_rate_up", "servo_timeout", "query_steps"}
-LegacyOnly == {"ab_move", "lowlevel_move", "toggle_pen", "set_layer", "query_layer", "query_pen_up", "query_button"}
+         "pb_config_out", "pb_set", "pen_pos_down", "pen_pos_up", "pen_rate_down", "pen_rate_up", "servo_timeout", "query_steps",
+         "write_nickname", "query_nickname", "query_voltage", "reboot", "bootload"}
+LegacyOnly == {"ab_move", "lowlevel_move", "toggle_pen", "set_layer", "query_layer", "query_pen_up", "query_button", "query_motors_pins"}
 EBB3Only == {"dio_b_config", "dio_b_read", "clear_steps", "clear_accumulators", "var_write", "var_read", "var_write_int32", "var_read_int32",
-             "query_voltage", "query_current", "motors_query_enabled", "query_nickname", "reboot", "bootload", "query_statusbyte"}
+             "query_current", "motors_query_enabled", "query_statusbyte"}
 Helpers == Both \cup LegacyOnly \cup EBB3Only
 
 Lines(h, a) ==
@@ -73,6 +74,9 @@ Lines(h, a) ==
     [] h = "reboot"         -> << "RB" >>
     [] h = "bootload"       -> << "BL" >>
     [] h = "query_statusbyte" -> << "QG" >>
+    [] h = "write_nickname" -> << "ST,Lab" >>                        \* the harness passes the name "Lab"
+    \* legacy motor-state query: the five driver pins through PI (enable 1, enable 2, MS1, MS2, MS3), as its docstring says
+    [] h = "query_motors_pins" -> << "PI,E,0", "PI,C,1", "PI,E,2", "PI,E,1", "PI,A,6" >>
 
 \* EBB3 motors_enable(r1, r2), which needs the board's QE answer when only motor 2 is requested.
 \* qe = <<res1, res2>> as motors_query_enabled decodes them (only used when c1 = 0 # c2)
